@@ -9,8 +9,28 @@ import "sync"
 var (
 	mu      sync.RWMutex
 	yieldFn func(point string)
+	lockFn  func(name string, probe func() bool)
 	asyncWG sync.WaitGroup
 )
+
+// SetBeforeLock installs (or removes, with nil) the function called before blocking lock calls.
+// A cooperative scheduler uses it to keep a thread from blocking inside the runtime: it yields
+// until probe() says the lock is free.
+func SetBeforeLock(f func(name string, probe func() bool)) {
+	mu.Lock()
+	lockFn = f
+	mu.Unlock()
+}
+
+// BeforeLock marks a point where the caller is about to take a blocking lock.
+func BeforeLock(name string, probe func() bool) {
+	mu.RLock()
+	f := lockFn
+	mu.RUnlock()
+	if f != nil {
+		f(name, probe)
+	}
+}
 
 // SetYield installs (or removes, with nil) the function called at every yield point.
 func SetYield(f func(point string)) {
